@@ -337,6 +337,10 @@ func c20Embeds() []c20Embed {
 		}},
 		{"DerefItem(list)", func(n ap.Item) { _ = ap.DerefItem(ap.ItemCollection{n}) }},
 		{"Format", func(n ap.Item) { _ = fmt.Sprintf("%v %s", mk(n), mk(n)) }},
+		{"ItemCollection.Recipients", func(n ap.Item) {
+			_ = ap.ItemCollection{ap.IRI("https://example.com/a"), n, &ap.Object{ID: "https://example.com/o", To: ap.ItemCollection{n, ap.IRI("https://example.com/b")}}}.Recipients()
+			_ = ap.ItemCollection{n}.Recipients()
+		}},
 		{"Collection.Append/Contains", func(n ap.Item) {
 			c := &ap.Collection{Items: ap.ItemCollection{n}}
 			_ = c.Append(ap.IRI("https://example.com/a"))
@@ -344,6 +348,81 @@ func c20Embeds() []c20Embed {
 			_ = c.Count()
 		}},
 	}
+}
+
+// every exported method of the list and collection types, called on a receiver that holds the nil-like item as a
+// member, with the nil-like item and with a valid IRI as arguments (methods wanting bytes, a formatter state or other
+// argument types are left to their own checks)
+func c20MethodEmbeds() []c20Embed {
+	itemT := reflect.TypeOf((*ap.Item)(nil)).Elem()
+	recvs := []struct {
+		name string
+		mk   func(n ap.Item) any
+	}{
+		{"ItemCollection", func(n ap.Item) any {
+			return ap.ItemCollection{ap.IRI("https://example.com/a"), n, &ap.Object{ID: "https://example.com/o", Type: ap.NoteType}}
+		}},
+		{"*ItemCollection", func(n ap.Item) any { return &ap.ItemCollection{n, ap.IRI("https://example.com/a")} }},
+		{"*Collection", func(n ap.Item) any {
+			return &ap.Collection{ID: "https://example.com/c", Type: ap.CollectionType, Items: ap.ItemCollection{n, ap.IRI("https://example.com/a")}, First: n, Current: n}
+		}},
+		{"*OrderedCollection", func(n ap.Item) any {
+			return &ap.OrderedCollection{ID: "https://example.com/c", Type: ap.OrderedCollectionType, OrderedItems: ap.ItemCollection{ap.IRI("https://example.com/a"), n}, Last: n}
+		}},
+		{"*CollectionPage", func(n ap.Item) any {
+			return &ap.CollectionPage{ID: "https://example.com/c", Type: ap.CollectionPageType, Items: ap.ItemCollection{n}, PartOf: n, Next: n, Prev: n}
+		}},
+		{"*OrderedCollectionPage", func(n ap.Item) any {
+			return &ap.OrderedCollectionPage{ID: "https://example.com/c", Type: ap.OrderedCollectionPageType, OrderedItems: ap.ItemCollection{n, n}, PartOf: n}
+		}},
+	}
+	var out []c20Embed
+	for _, r := range recvs {
+		r := r
+		rt := reflect.TypeOf(r.mk(nil))
+		for m := 0; m < rt.NumMethod(); m++ {
+			mt := rt.Method(m)
+			ft := mt.Type // receiver is argument 0
+			ok := true
+			for a := 1; a < ft.NumIn(); a++ {
+				at := ft.In(a)
+				if ft.IsVariadic() && a == ft.NumIn()-1 {
+					at = at.Elem()
+				}
+				if at != itemT && at.Kind() != reflect.Bool {
+					ok = false
+				}
+			}
+			if !ok {
+				continue
+			}
+			name := mt.Name
+			out = append(out, c20Embed{r.name + "." + name + " (receiver holds the nil-like item)", func(n ap.Item) {
+				for _, arg := range []ap.Item{n, ap.IRI("https://example.com/a")} {
+					mv := reflect.ValueOf(r.mk(n)).MethodByName(name)
+					ft := mv.Type()
+					var args []reflect.Value
+					for a := 0; a < ft.NumIn(); a++ {
+						at := ft.In(a)
+						if ft.IsVariadic() && a == ft.NumIn()-1 {
+							at = at.Elem()
+						}
+						if at == itemT {
+							v := reflect.New(itemT).Elem()
+							if arg != nil {
+								v.Set(reflect.ValueOf(arg))
+							}
+							args = append(args, v)
+						} else {
+							args = append(args, reflect.ValueOf(false))
+						}
+					}
+					mv.Call(args)
+				}
+			}})
+		}
+	}
+	return out
 }
 
 func runC20(seed int64, n int, tier string, outDir string) (*Report, error) {
@@ -382,7 +461,7 @@ func runC20(seed int64, n int, tier string, outDir string) (*Report, error) {
 			}
 		}
 	}
-	for _, e := range c20Embeds() {
+	for _, e := range append(c20Embeds(), c20MethodEmbeds()...) {
 		for i, nv := range nils {
 			func() {
 				defer func() {
